@@ -524,6 +524,9 @@ def run(prop, tier):
         ctx.assumptions += ["reference = DESIGN.md A.4; the state after a refused operation is not explored (the emulator stops there)",
                             "end-to-end: at emulator level execute/end also enter/leave the 'task body' region of the subsystem stack (DESIGN 5, C07)",
                             "search bounded by depth (module: 5/7, end-to-end: 5/8) and <= 4 live bodies"]
+        from checks import soak
+        if not ctx.out_of_time(0.9):
+            soak.run_for(ctx, build, scratch, "C07", tier)
         return ctx.finish()
     finally:
         scratch.cleanup()
